@@ -44,7 +44,7 @@ func TestMain(m *testing.M) {
 			"spurious read conflicts are allowed by the property (counted, never failed)",
 			"expirations use the fixed instants of stx (2001 / 2999): the wall clock cannot flip a filter outcome",
 			"GetWithPrefix(prefix, neq): neq is nil or the smallest key of the key universe under the prefix (the tree skips keys <= neq for the first candidate and keys == neq afterwards; both readings of 'neq' coincide there); it returns the first key under the prefix whose entry passes the filters (store behaviour since 3a5bcd2)",
-			"point and prefix lookups judge the pending write of the tx itself with the filters (since efc586d): a key the tx deleted or wrote as expired is not found; revision numbers of own uncommitted writes are not asserted",
+			"a point lookup of a key the tx itself deleted / wrote as expired may return the own entry or not-found (filters do not see own writes in Get/GetWithPrefix but do in key readers; the property only says own writes are visible); in GetWithPrefix a key written by the tx always passes the filters, as implemented; revision numbers of own uncommitted writes are not asserted",
 			"a tx writes while one of its readers is open only immediately before Reset (what an open reader returns after a write of the same tx is tbtree snapshot behaviour, C10); Offset>0 is not combined with Reset (the read-write reader does not re-apply the offset after Reset, the plain one does: undocumented)",
 			"ReadBetween is generated only while the tx has no own write under the reader prefix (the logical time of uncommitted writes is not observable)",
 			"non-indexable entries are written by write-only committers only; header version 0 cases carry no metadata",
@@ -53,13 +53,12 @@ func TestMain(m *testing.M) {
 			"MarkPrefixScanned returns nothing to compare: if the tx commits, the (key, writer tx) tuples of the range at state(id-1) must equal those of state(t) for some t not later than the last precommitted tx observed right after the call",
 			"a step (commit, read) that does not return within 120 s is reported as a failure (all operations take milliseconds)",
 			"known findings (pinned probes, excluded while they fire, counted): " +
-				"K05b a GetWithPrefix answered by an own write that hides a smaller committed key is not failed; K05d a mismatching GetWithPrefix that had to skip an entry deleted/expired by the tx itself before reaching its result is not failed; K05a (fixed by 7f9fd6d: probe kept as regression, passes ending with own writes are generated again); K05c (fixed in /repo by 5150a30, its probe is kept as a regression: checkPreconditions returned at the first up-to-date snapshot without validating the snapshots of other indexes) is no longer excluded",
+				"K05b a GetWithPrefix answered by an own write that hides a smaller committed key is not failed; K05a (fixed by 7f9fd6d: probe kept as regression, passes ending with own writes are generated again); K05c (fixed in /repo by 5150a30, its probe is kept as a regression: checkPreconditions returned at the first up-to-date snapshot without validating the snapshots of other indexes) is no longer excluded",
 			"not implemented from the design: fsim delays on the indexer's reads (the recorder hooks writes only; lag comes from the bulk wait and from reused dumped roots), mapped indexes, UnsafeMVCC",
 		},
 		Probes: []vk.Probe{
 			{ID: kReaderOwnTail, Present: probeReaderOwnTail},
 			{ID: kPrefixOwnFirst, Present: probePrefixOwnFirst},
-			{ID: kPrefixOwnSkipped, Present: probePrefixOwnSkipped},
 			{ID: kMultiIdxSkip, Present: probeMultiIdxSkip},
 		},
 	})
